@@ -201,6 +201,112 @@ def run_family(sess, M, nroots, dfs, fam):
     sess.sample({'family': fam, 'nodes': M, 'roots': nroots, 'paths': stats['paths']})
 
 
+def fam_root_options(sess):
+    """the per-root loop of the real Searcher::list_search_results with Searcher::visit_dir summarised (its arguments and the searcher's
+    state are captured): with 2 and 3 roots whose options (mindepth, maxdepth, archives, symlinks, traversal) are all symbolic, every root
+    is walked once, in order, with exactly ITS OWN options — nothing carries over from an earlier root"""
+    from mirsym.core import UNIT, ok
+    prog = sess.prog
+    fam = 'root_options'
+    Fs = E.struct_fields(prog, 'Searcher')
+
+    def visit_dir_summary(ctx, args, callee):
+        s = ctx.deref(args[0])
+        p = W.as_path(ctx, args[1])
+        ctx.ghost.setdefault('visits', []).append({'root': p.text, 'min': args[2], 'max': args[3], 'root_depth': args[4], 'archives': args[5],
+                                                   'traversal': args[-2], 'process_queue': args[-1], 'follow': s.f[Fs.index('current_follow_symlinks')]})
+        return ok(UNIT)
+    ov = [(r'Searcher::visit_dir$', visit_dir_summary, 'summary:visit_dir(capture arguments and searcher state)')] + W.models()
+    sess.bounds[fam] = {'roots': '2 and 3', 'options per root': 'mindepth, maxdepth (32-bit), archives, symlinks, bfs/dfs: all symbolic'}
+    for nroots in (2, 3):
+        ex = sess.executor(ov, unwind=8)
+        box = {'paths': 0}
+
+        def run(ctx, nroots=nroots):
+            fs = W.FS(ctx, nroots, roots=nroots)
+            ctx.ghost['fs'] = fs
+            opts = []
+            roots = []
+            for r in range(nroots):
+                o = {'min': ctx.fresh_bv('min%d' % r, 32), 'max': ctx.fresh_bv('max%d' % r, 32), 'archives': ctx.fresh_bool('arc%d' % r),
+                     'symlinks': ctx.fresh_bool('sym%d' % r), 'dfs': ctx.fresh_bool('dfs%d' % r)}
+                opts.append(o)
+                roots.append(W.mk_root(prog, 'R%d' % r, o['min'], o['max'], o['dfs'], archives=o['archives'], symlinks=o['symlinks']))
+            q = W.mk_query(prog, roots, BitVecVal(0, 32), ordered=False)
+            res, searcher = W.run_search(ctx, prog, q)
+            return opts
+
+        def on_path(ctx, out, nroots=nroots):
+            box['paths'] += 1
+            nm = '%s, %d roots' % (fam, nroots)
+            if out[0] != 'ret':
+                if not box.get('bad'):
+                    box['bad'] = True; sess.inconclusive(nm, str(out)[:300], fam)
+                return
+            opts = out[1]
+            visits = ctx.ghost.get('visits', [])
+            conds = [BoolVal(len(visits) == nroots)]
+            dfs_idx = prog.src.variant_index('TraversalMode', 'Dfs')
+            for r, v in enumerate(visits[:nroots]):
+                o = opts[r]
+                tr = v['traversal']
+                td = tr.d if not isinstance(tr.d, int) else BitVecVal(tr.d, 64)
+                conds += [BoolVal(v['root'] == 'R%d' % r), v['min'] == o['min'], v['max'] == o['max'], v['archives'] == o['archives'], v['follow'] == o['symlinks'],
+                          (td == dfs_idx) == o['dfs'], v['root_depth'] == 0]
+            if ctx.check(Not(And(conds))) == z3.unsat or box.get('viol'):
+                return
+            box['viol'] = True
+            m = ctx.model(Not(And(conds)))
+            which = 'count'
+            for r, v in enumerate(visits[:nroots]):
+                o = opts[r]
+                for k, a, b in (('mindepth', v['min'], o['min']), ('maxdepth', v['max'], o['max']), ('archives', v['archives'], o['archives']), ('symlinks', v['follow'], o['symlinks'])):
+                    if not z3.is_true(m.eval(a == b, model_completion=True)):
+                        which = '%s of root %d' % (k, r + 1)
+            sess.violated(nm, 'root_options/' + which.split(' ')[0], 'the walk of a root does not use that root\'s own %s (options of the roots: %s)' % (
+                which, [{k: str(m.eval(x, model_completion=True)) for k, x in o.items()} for o in opts]), {}, cli_replay_root_options(), fam)
+        ex.explore(run, on_path)
+        if not box.get('viol') and not box.get('bad'):
+            sess.discharged('%s, %d roots: each root is walked once with its own options' % (fam, nroots), family=fam, queries=box['paths'])
+
+
+def cli_replay_root_options():
+    """two roots with different options on a fixed tree (a link to a directory, a zip, two levels): every pairing of option sets"""
+    def rep():
+        import os, tempfile, shutil, subprocess, zipfile, itertools
+        exe = common.native_binary()
+        d = tempfile.mkdtemp(prefix='verif-c01o-', dir=common.SCRATCH_ROOT)
+        try:
+            def mk(root):
+                # the link leads OUT of the root, to a directory that is listed only if the link is followed
+                out_ = root + '-outside'
+                os.makedirs(os.path.join(root, 'd1', 'd2')); os.makedirs(os.path.join(out_, 'deep'))
+                open(os.path.join(root, 'f'), 'w').close(); open(os.path.join(root, 'd1', 'g'), 'w').close(); open(os.path.join(root, 'd1', 'd2', 'h'), 'w').close()
+                open(os.path.join(out_, 'x'), 'w').close(); open(os.path.join(out_, 'deep', 'y'), 'w').close()
+                os.symlink(out_, os.path.join(root, 'd1', 'lnk'))
+                z = zipfile.ZipFile(os.path.join(root, 'a.zip'), 'w'); z.writestr('m', 'x'); z.close()
+            ra, rb = os.path.join(d, 'A'), os.path.join(d, 'B')
+            mk(ra); mk(rb)
+            env = {'PATH': os.environ['PATH'], 'HOME': d, 'TZ': 'UTC'}
+
+            def run(q):
+                r = subprocess.run([exe, q], env=env, stdout=subprocess.PIPE, stderr=subprocess.PIPE, timeout=20)
+                return sorted(r.stdout.decode().split('\n')[:-1])
+            optsets = ['', 'symlinks', 'archives', 'maxdepth 1', 'mindepth 2', 'symlinks archives maxdepth 2']
+            for oa, ob in itertools.product(optsets, optsets):
+                if oa == ob:
+                    continue
+                both = run('path from %s %s, %s %s' % (ra, oa, rb, ob))
+                sep = sorted(run('path from %s %s' % (ra, oa)) + run('path from %s %s' % (rb, ob)))
+                if both != sep:
+                    return True, '`from A %s, B %s` returns %d rows, the two roots searched separately %d (first difference: %r)' % (
+                        oa, ob, len(both), len(sep), sorted(set(both) ^ set(sep))[:3])
+            return False, 'every pairing of option sets: `from A <o1>, B <o2>` = the two searches taken separately'
+        finally:
+            shutil.rmtree(d, ignore_errors=True)
+    return rep
+
+
 def main(sess):
     sess.engines = ['mirsym (MIR symbolic execution) + z3 %s' % z3.get_version_string()]
     sess.assumptions += [
@@ -222,3 +328,5 @@ def main(sess):
         fam = 'walk2/' + ('dfs' if dfs else 'bfs')
         if not only or fam in only:
             run_family(sess, M if not quick else 4, 2, dfs, fam)
+    if not only or 'root_options' in only:
+        fam_root_options(sess)
